@@ -209,7 +209,10 @@ class GenSource(object):
         def walk(e):
             if isinstance(e, dict):
                 if 'i' in e and not isinstance(e['i'], bool):
-                    leaves.append(('i', e))
+                    # integer neighbours (next month, next year, one more decimal) only where every integer is
+                    # either accepted or rejected with ValueError: indices into fixed tables are left alone
+                    if ENTRIES[core['name']].group in ('Epoch', 'Angle', 'Sun', 'Coordinates', 'base'):
+                        leaves.append(('i', e))
                 elif 'f' in e:
                     leaves.append(('f', e))
                 elif 'new' in e:
@@ -226,10 +229,12 @@ class GenSource(object):
                 e['i'] = e['i'] + rng.choice([-1, 1])
             elif k == 'f':
                 x = float.fromhex(e['f'])
-                e['f'] = float(x + rng.choice([-1, 1]) * rng.choice([1e-3, 0.3, 1.0]) * max(1e-3, min(abs(x), 1.0))).hex()
+                # small moves only: the neighbour must stay inside the conservative domain the generator chose
+                # (some routines iterate without a bound on inputs far from their documented examples)
+                e['f'] = float(x * (1.0 + rng.choice([-1, 1]) * rng.choice([1e-12, 1e-9, 1e-6]))).hex()
             else:
                 x = float.fromhex(e['v'])
-                d = rng.choice([1e-4, 0.01, 0.4]) if e['new'] == 'Angle' else rng.choice([1e-3, 0.3, 20.0])
+                d = rng.choice([1e-10, 1e-7, 1e-5]) if e['new'] == 'Angle' else rng.choice([1e-6, 1e-3, 0.3])
                 e['v'] = float(x + rng.choice([-1, 1]) * d).hex()
         return core
 
